@@ -249,10 +249,17 @@ def check_cases(ctx, cases):
         link_too_long = ml is not None and any(n["t"] == "link" and len(unhx(n["target"])) > ml for p, n in fs.walk(spec))
         lrng = random.Random(case["listing_seed"])
         rec = {"error": None}
-        with fs.scratch_tree(spec, "c13") as root:
+        with fs.scratch_tree(spec, "c13") as root, fs.cwd_guard():
+            # one case in three goes through a relative spelling of the root (the working directory stays
+            # there until the case is over: lazily loaded content data is read through that spelling)
+            spelled = root
+            if ci % 3 == 1:
+                os.chdir(os.path.dirname(root))
+                spelled = os.path.basename(root) + b"/" * (ci % 2)
+                ctx.count("relative-root")
             try:
                 with fs.shuffled_scandir(lrng):
-                    d = Directory.from_disk(path=root, path_filter=py_filter(flt, root), max_content_length=ml)
+                    d = Directory.from_disk(path=spelled, path_filter=py_filter(flt, spelled), max_content_length=ml)
             except Exception as e:
                 rec["error"] = str(e)
                 d = None
